@@ -361,6 +361,47 @@ def listClear (h : Heap) (l : Addr) : Option Heap :=
 /-- `dom.LeafNode(v)` -/
 def newLeaf (h : Heap) (s : Scalar) : Heap × Addr := h.alloc (.leaf s)
 
+/-! ### A sequence of builder calls as data -/
+
+/-- one call of a builder mutator on the cell at `Op.target` (the `…Leaf` forms first create the
+    value with `dom.LeafNode(s)`) -/
+inductive Op where
+  | addValue (c : Addr) (name : String) (v : Addr)
+  | addLeaf (c : Addr) (name : String) (s : Scalar)
+  | addContainer (c : Addr) (name : String)
+  | addList (c : Addr) (name : String)
+  | remove (c : Addr) (name : String)
+  | listSet (l : Addr) (idx : Nat) (v : Addr)
+  | listSetLeaf (l : Addr) (idx : Nat) (s : Scalar)
+  | listAppend (l : Addr) (v : Addr)
+  | listAppendLeaf (l : Addr) (s : Scalar)
+  | listClear (l : Addr)
+  deriving Repr, DecidableEq
+
+/-- the one existing cell the call writes -/
+def Op.target : Op → Addr
+  | .addValue c _ _ | .addLeaf c _ _ | .addContainer c _ | .addList c _ | .remove c _ => c
+  | .listSet l _ _ | .listSetLeaf l _ _ | .listAppend l _ | .listAppendLeaf l _ | .listClear l => l
+
+def applyOp (h : Heap) : Op → Option Heap
+  | .addValue c name v => addValue h c name v
+  | .addLeaf c name s => let (h1, l) := newLeaf h s; addValue h1 c name l
+  | .addContainer c name => (addContainer h c name).map (·.1)
+  | .addList c name => (addList h c name).map (·.1)
+  | .remove c name => remove h c name
+  | .listSet l idx v => listSet h l idx v
+  | .listSetLeaf l idx s => let (h1, v) := newLeaf h s; listSet h1 l idx v
+  | .listAppend l v => listAppend h l v
+  | .listAppendLeaf l s => let (h1, v) := newLeaf h s; listAppend h1 l v
+  | .listClear l => listClear h l
+
+def applyOps : Heap → List Op → Option Heap
+  | h, [] => some h
+  | h, op :: ops =>
+    match applyOp h op with
+    | none => none
+    | some h1 => applyOps h1 ops
+
 /-! ## Building a heap from a tree (deterministic allocation order: children first, key order) -/
 
 mutual
